@@ -185,6 +185,30 @@ theorem C05_looser_first (s s' : Sel K) (nd : Nat) (x : FitRows K) (hr : Ranked 
   | none => simp
   | some fl => simp [List.take_take, Nat.min_eq_left hle]
 
+/-- **C05 (looser selector first, counts capped at the number of fits).** "Looser" compares what the
+    two selectors actually keep, `min(n_fits, total)`: e.g. `s = ('N', 10)`, `s' = ('A', ·)` on 5 fits.
+    If `s'` keeps at least as many fits as `s`, then `keep s ∘ keep s' = keep s`. -/
+theorem C05_looser_first_min (s s' : Sel K) (nd : Nat) (x : FitRows K) (hwf : WFInfo x)
+    (hr : Ranked x.chi2) (hna : NonAttained s nd x.chi2)
+    (hle : min (nFits s nd x.chi2) x.chi2.length ≤ min (nFits s' nd x.chi2) x.chi2.length) :
+    keep s nd (keep s' nd x) = keep s nd x := by
+  have hn : nFits s nd (x.chi2.take (nFits s' nd x.chi2)) = nFits s nd x.chi2 :=
+    nFits_take_min s nd x.chi2 _ hr hna (le_trans hle (Nat.min_le_left _ _))
+  obtain ⟨h1, h2, h3, h4, h5⟩ := hwf
+  -- on an array with one entry per fit, cutting at n' and then at n is cutting at n
+  have cut : ∀ {α : Type} (l : List α), l.length = x.chi2.length →
+      (l.take (nFits s' nd x.chi2)).take (nFits s nd x.chi2) = l.take (nFits s nd x.chi2) := by
+    intro α l hl
+    rw [List.take_take, List.take_eq_take_iff, hl]
+    omega
+  obtain ⟨av, sc, chi2, name, fluxes, modelId⟩ := x
+  simp only at hn hle h1 h2 h3 h4 h5 cut
+  simp only [keep, hn, FitRows.mk.injEq]
+  refine ⟨cut av h1, cut sc h2, cut chi2 rfl, cut name h3, ?_, cut modelId h4⟩
+  cases fluxes with
+  | none => rfl
+  | some fl => simp [cut fl (h5 fl rfl)]
+
 /-- **C05 (selecting twice).** On a ranked result `keep s ∘ keep s = keep s`. -/
 theorem C05_idem (s : Sel K) (nd : Nat) (x : FitRows K) (hr : Ranked x.chi2)
     (hna : NonAttained s nd x.chi2) : keep s nd (keep s nd x) = keep s nd x :=
@@ -211,5 +235,10 @@ example : WFInfo exInfoC05 ∧ Ranked exInfoC05.chi2 ∧ NonAttained exSelC05 3 
 /-- `(chi² − 1)/3 < 1/4` keeps only the best fit; a looser `('N', 4)` first changes nothing -/
 example : nFits exSelC05 3 exInfoC05.chi2 = 1 ∧ nFits exSelC05 3 exInfoC05.chi2 ≤ nFits (Sel.N 4) 3 exInfoC05.chi2 := by
   decide +kernel
+
+/-- `('N', 10)` after `('A', ·)` on 5 fits: the raw counts are 10 > 5, the capped ones 5 ≤ 5 -/
+example : ¬ (nFits (Sel.N 10) 3 exInfoC05.chi2 ≤ nFits (Sel.A : Sel Rat) 3 exInfoC05.chi2) ∧
+    min (nFits (Sel.N 10) 3 exInfoC05.chi2) exInfoC05.chi2.length
+      ≤ min (nFits (Sel.A : Sel Rat) 3 exInfoC05.chi2) exInfoC05.chi2.length := by decide +kernel
 
 end SF
